@@ -288,6 +288,14 @@ func (c *Chunk) addLocked(chunk pb.Chunk) bool {
 			return false
 		}
 	}
+	if fn := c.fs.PathBase(chunk.Filepath); fn == "" || fn == "." || fn == ".." {
+		// such a name does not stay inside the temp directory of the snapshot, no
+		// sender produces it. drop the stream.
+		plog.Warningf("invalid file name in chunk %s, snapshot dropped", key)
+		c.removeTempDir(td.first)
+		c.reset(key)
+		return false
+	}
 	if err := c.save(chunk); err != nil {
 		err = errors.Wrapf(err, "failed to save chunk %s", key)
 		c.removeTempDir(chunk)
